@@ -83,6 +83,9 @@ pub fn part() -> impl Strategy<Value = Part> {
         3 => (prop_oneof![0u16..5, 0u16..300], prop::collection::vec(-5i8..50, 1..5)).prop_map(|(helper_work, inputs)| Part::BusyReceiver { helper_work, inputs }),
         2 => (prop::collection::vec(0u8..40, 1..4), any::<bool>()).prop_map(|(sizes, concat_in_main)| Part::BinFork { sizes, concat_in_main }),
         2 => prop::collection::vec(0u8..20, 1..4).prop_map(|chunks| Part::BinStream { chunks }),
+        // a filtered receive over a single-sender mailbox is confluent too: the filter may run
+        // before the wanted message has arrived (it parks after a rejection) or after
+        3 => (prop::collection::vec(0u8..8, 1..5), any::<u8>()).prop_map(|(sizes, pick)| Part::FilterBin { sizes, pick }),
     ]
 }
 
